@@ -293,10 +293,27 @@ def shipped_form_kernels(ctx, quick):
 
     rng = ctx.rng
     out = []
+    # cheap pre-scan of the model texts: a micro-op whose port collection names a port twice is what the balancer (which addresses
+    # a micro-op's ports by position) cannot handle; models with such a list are always swept and those forms come first
+    risky = {}
+    import re as _re
+
+    for arch in corpus.archs_of("x86", False) + corpus.archs_of("aarch64", False):
+        try:
+            text = open(os.path.join(core.REPO, "osaca", "data", arch + ".yml"), encoding="utf-8").read()
+        except OSError:
+            continue
+        for m_ in _re.finditer(r"port_pressure:\s*(\[.*\])\s*$", text, _re.M):
+            for coll in _re.findall(r"\[\s*[-\d.]+\s*,\s*(\[[^\]]*\]|'[^']*'|\"[^\"]*\"|[A-Za-z0-9]+)\s*\]", m_.group(1)):
+                items = _re.findall(r"[A-Za-z0-9]+", coll) if coll.startswith("[") else list(coll.strip("'\""))
+                if len(items) != len(set(items)):
+                    risky.setdefault(arch, set()).add(m_.group(1).replace(" ", ""))
+    ctx.count("models_with_duplicate_port_in_a_micro_op", len(risky))
     for isa in ("x86", "aarch64"):
         base = list(corpus.archs_of(isa, quick))
         others = [a for a in corpus.archs_of(isa, False) if a not in base]
         archs = base + (rng.sample(others, min(2, len(others))) if quick else others)
+        archs += [a for a in corpus.archs_of(isa, False) if a in risky and a not in archs]
         for arch in archs:
             pressure_isa(arch)
             raw = _RAW[arch]
@@ -315,11 +332,15 @@ def shipped_form_kernels(ctx, quick):
                     continue
                 line, _why = c07synth.synth_line(isa, name, ops, c07synth.Pick())
                 if line is not None:
-                    reps[key] = line
-            lines = list(reps.values())
+                    reps[key] = (line, pp)
+            lines = [ln for ln, _ in reps.values()]
             if len(lines) < 3:
                 continue
             picks = lines if not quick else rng.sample(lines, min(len(lines), 20))
+            if arch in risky:
+                first = [ln for ln, pp_ in reps.values()
+                         if any(isinstance(u, (list, tuple)) and len(u) == 2 and len(list(u[1])) != len(set(u[1])) for u in pp_)]
+                picks = first + [p_ for p_ in picks if p_ not in first]
             for ln in picks:
                 out.append((arch, [ln] + rng.sample(lines, 2)))
                 if rng.random() < 0.5:
@@ -566,6 +587,17 @@ def run(ctx):
 
 def replay(ctx, path):
     rep = json.load(open(path))["replay"]
+    if rep.get("kind") == "shipped-forms":
+        ctx.lean.build_driver()
+        ctx.driver = core.Driver(os.path.join(core.LEAN_DIR, ".lake", "build", "bin", "driver"))
+        ctx.env = core.Env("C01")
+        ctx.env.activate()
+        inc = Fraction(ctx.driver.ask1("consts").split(" ")[0])
+        before = len(ctx.violations)
+        run_lines(ctx, rep["arch"], rep["isa"], rep["kernel"], inc, "shipped-forms")
+        bad = [v for v in ctx.violations[before:] if v.get("key") != KNOWN_TWICE]
+        print("kernel %s on %s: %s" % (rep["kernel"], rep["arch"], bad[0]["what"] if bad else "every state feasible"))
+        return 1 if bad else 0
     if rep.get("kind") not in ("synthetic", "shipped"):
         print("replay names a broken theorem/correspondence:", json.dumps(rep)[:800])
         return 1
